@@ -80,10 +80,12 @@ def run(tier, seed):
                 t.fail('exact mode', (f, a, b), 'flags %r expect %r submission %r: ok=%r but cleaned strings %s' % (f, a, b, got, 'are equal' if want else 'differ'))
     # accept_any / accept_nonempty
     subs = ['', ' ', 'a', 'ab', 'a b', 'a  b c', 'abcdef', '   a   ']
-    for mode, ml, mw, how in itertools.product(('accept_any', 'accept_nonempty'), (0, 1, 3), (0, 2), ('err', 'msg', None)):
-        g = sg.StringGrader(min_length=ml, min_words=mw, explain_minimums=how, **{mode: True})
+    subs += [' cat', 'cat ', ' a b ', 'a   b', '\ta', 'a\nb']
+    for mode, ml, mw, how, (strip, cspaces) in itertools.product(('accept_any', 'accept_nonempty'), (0, 1, 3), (0, 1, 2), ('err', 'msg', None),
+                                                               ((True, True), (False, True), (True, False), (False, False))):
+        g = sg.StringGrader(min_length=ml, min_words=mw, explain_minimums=how, strip=strip, clean_spaces=cspaces, **{mode: True})
         for s in subs:
-            c = spec_clean(s, True, True, False, True)
+            c = spec_clean(s, True, strip, False, cspaces)
             need = max(ml, 1) if (mode == 'accept_nonempty' and ml == 0) else ml
             good = len(c) >= need and len(c.split()) >= mw
             try:
@@ -99,8 +101,8 @@ def run(tier, seed):
                 ok = got[0] == 'InvalidInput' and (('words' in got[1]) == (len(c.split()) < mw))
             else:
                 ok = got[0] == 'ok' and got[1] is False and ((got[2] != '') == (how == 'msg')) and (how != 'msg' or ('words' in got[2]) == (len(c.split()) < mw))
-            key = (mode, ml, mw, how, s)
-            (t.ok if ok else t.fail)('accept modes', key, *([] if ok else ['%s min_length=%d min_words=%d explain_minimums=%r submission %r: %r' % (mode, ml, mw, how, s, got)]))
+            key = (mode, ml, mw, how, strip, cspaces, s)
+            (t.ok if ok else t.fail)('accept modes', key, *([] if ok else ['%s min_length=%d min_words=%d explain_minimums=%r strip=%s clean_spaces=%s submission %r: %r' % (mode, ml, mw, how, strip, cspaces, s, got)]))
     # validation pattern: entire cleaned submission, every mode
     patterns = ['cat|dog', 'cat', r'\([0-9]+\)', '^cat', 'cat$', '(cat|dog)', 'c.t', '[a-c]+', r'\d+|x', 'a|b|cc', '(?i)cat', 'cat|']
     tests = ['cat', 'dog', 'catfish', 'hotdog', 'x(12)', '(12)', '(12)x', 'cot', 'cart', 'abc', 'abcd', '12', 'x', 'cc', 'CAT', '']
